@@ -13,6 +13,9 @@
  *   C <n> | <state>
  *   create <Type> <nameHex|-> <ioe> <templatesEnc> <attrsEnc> | now= parts= cfg= ok= parents= file= attrs= <state>
  *   delete <Type> <nameHex|-> <cascade> | found= ok= <state>
+ *   A delete line may end in the token `thr=<Type>:<nameHex|->` (after `http`, if present): a subscriber of
+ *   ConfigObject::OnActiveChanged (in production: cluster relay, IDO, Icinga DB, API event streams) throws once, the first time
+ *   that object is deactivated during this call; the observation then carries threw=<0|1> (did the subscriber fire) before found=.
  *   An operation line may end in the token `http`: the operation then goes through HttpHandler::ProcessRequest
  *   (PUT /v1/objects/<plural>/<name> with a JSON body, DELETE /v1/objects/<plural>/<name>[?cascade=1]) with an ApiUser
  *   holding permission "*"; cfg= is then computed by the harness with the same call the handler makes; ok=1 HTTP 200,
@@ -898,7 +901,8 @@ static void BeginCase(long long n)
 }
 
 static std::string l_SkipLine; /* the automatic delete just executed: skipped if it is the next input line */
-static void DoDelete(const Type::Ptr& type, const std::string& name, bool cascade, bool viaHttp);
+static void DoDelete(const Type::Ptr& type, const std::string& name, bool cascade, bool viaHttp, const std::string& thr = std::string());
+static bool NameFromTok(const std::string& tok, std::string& name);
 
 /* /repo segfaults (Service::OnAllConfigLoaded, null host) when a Service is created for a host name that has a Host
  * configuration item but no Host object of that name; that state is reachable by creating a Host with the attribute
@@ -1104,7 +1108,7 @@ static void DoCreate(const Type::Ptr& type, const std::string& name, bool ioe, c
 	(void) zombieParent;
 }
 
-static void DoDelete(const Type::Ptr& type, const std::string& name, bool cascade, bool viaHttp)
+static void DoDelete(const Type::Ptr& type, const std::string& name, bool cascade, bool viaHttp, const std::string& thr)
 {
 	l_OpIdx++;
 	l_NDelete++;
@@ -1114,7 +1118,8 @@ static void DoDelete(const Type::Ptr& type, const std::string& name, bool cascad
 	SetNow((double)now);
 
 	std::string tn = type->GetName().GetData();
-	std::string head = "delete " + tn + " " + NameTok(name) + " " + (cascade ? "1" : "0") + (viaHttp ? " http" : "");
+	std::string head = "delete " + tn + " " + NameTok(name) + " " + (cascade ? "1" : "0") + (viaHttp ? " http" : "") +
+		(thr.empty() ? "" : " thr=" + thr);
 	if (l_Flush) {
 		fprintf(stderr, "%s\n", head.c_str());
 		fflush(stderr);
@@ -1124,6 +1129,29 @@ static void DoDelete(const Type::Ptr& type, const std::string& name, bool cascad
 	try {
 		obj = dynamic_cast<ConfigType *>(type.get())->GetObject(String(name));
 	} catch (...) { }
+
+	/* fault injection: the first deactivation of the named object during this call is answered by an exception
+	 * from an OnActiveChanged subscriber */
+	ConfigObject::Ptr thrObj;
+	bool fired = false;
+	if (!thr.empty()) {
+		size_t colon = thr.find(':');
+		Type::Ptr tt = TypeOf(thr.substr(0, colon));
+		std::string tname;
+		if (tt && colon != std::string::npos && NameFromTok(thr.substr(colon + 1), tname)) {
+			try { thrObj = dynamic_cast<ConfigType *>(tt.get())->GetObject(String(tname)); } catch (...) { }
+		}
+	}
+	boost::signals2::scoped_connection thrConn;
+	if (thrObj) {
+		thrConn = ConfigObject::OnActiveChanged.connect([&fired, &thrObj](const ConfigObject::Ptr& o, const Value&) {
+			if (!fired && o == thrObj && !o->IsActive()) {
+				fired = true;
+				throw std::runtime_error("c17: injected failure of an OnActiveChanged subscriber");
+			}
+		});
+	}
+	std::string threwF;
 
 	std::string ok = "-";
 	if (viaHttp) {
@@ -1136,7 +1164,9 @@ static void DoDelete(const Type::Ptr& type, const std::string& name, bool cascad
 		else if (status == 200) { ok = "1"; l_NDelOk++; }
 		else if (status == 500) { ok = "0"; l_NDelRefused++; }
 		else { ok = "x"; l_NDelExc++; }
-		Emit(head + " | found=" + (found ? "1" : "0") + " ok=" + ok + " " + State());
+		thrConn.disconnect();
+		if (!thr.empty()) threwF = std::string("threw=") + (fired ? "1 " : "0 ");
+		Emit(head + " | " + threwF + "found=" + (found ? "1" : "0") + " ok=" + ok + " " + State());
 		return;
 	}
 	if (obj) {
@@ -1154,7 +1184,9 @@ static void DoDelete(const Type::Ptr& type, const std::string& name, bool cascad
 		l_NDelMissing++;
 	}
 
-	Emit(head + " | found=" + (obj ? "1" : "0") + " ok=" + ok + " " + State());
+	thrConn.disconnect();
+	if (!thr.empty()) threwF = std::string("threw=") + (fired ? "1 " : "0 ");
+	Emit(head + " | " + threwF + "found=" + (obj ? "1" : "0") + " ok=" + ok + " " + State());
 }
 
 static std::vector<std::string> SplitSp(const std::string& s)
@@ -1232,6 +1264,12 @@ static void ExecLine(std::string line)
 		}
 		DoCreate(type, name, tok[3] == "1", templates, av, viaHttp, noAttrsMember);
 	} else if (tok[0] == "delete") {
+		std::string thr;
+		if (tok.size() >= 5 && tok.back().compare(0, 4, "thr=") == 0) {
+			thr = tok.back().substr(4);
+			tok.pop_back();
+			if (thr.empty() || thr.find(':') == std::string::npos) { fprintf(stderr, "bad delete line\n"); return; }
+		}
 		bool viaHttp = tok.size() == 5 && tok[4] == "http";
 		if (tok.size() != 4 && !viaHttp) { fprintf(stderr, "bad delete line\n"); return; }
 		Type::Ptr type = TypeOf(tok[1]);
@@ -1244,7 +1282,7 @@ static void ExecLine(std::string line)
 			fprintf(stderr, "delete line cannot go through http\n");
 			return;
 		}
-		DoDelete(type, name, tok[3] == "1", viaHttp);
+		DoDelete(type, name, tok[3] == "1", viaHttp, thr);
 	}
 	/* everything else (T lines, comments) is skipped */
 }
@@ -1262,6 +1300,7 @@ static Worker l_W;
 static int l_Batch = 60;
 static bool l_DropCase = false;
 static long l_PX = 0, l_PAuto = 0, l_PHttp = 0, l_PCases = 0, l_PCreate = 0, l_PDelete = 0, l_PApplyOk = 0, l_PApplyFail = 0, l_PZombie = 0;
+static long l_PThrew = 0;
 static long l_PDel[4] = { 0, 0, 0, 0 }; /* ok, refused, missing, other */
 static std::map<std::string, std::array<long, 5>> l_PStat;
 
@@ -1398,7 +1437,8 @@ static void Account(const std::string& op, const std::string& out, int idx)
 		else if (ok == "1") l_PDel[0]++;
 		else if (ok == "0") l_PDel[1]++;
 		else l_PDel[3]++;
-		if (op.size() > 5 && op.rfind(" http") == op.size() - 5) l_PHttp++;
+		if (op.find(" http") != std::string::npos) l_PHttp++;
+		if (FieldOf(out, "threw") == "1") l_PThrew++;
 	}
 }
 
@@ -1485,10 +1525,13 @@ static void OpCreate(const std::string& type, const std::string& name, bool ioe,
 	Submit("create " + type + " " + NameTok(name) + " " + (ioe ? "1" : "0") + " " + EncS(t) + " " + EncS(a) + (viaHttp ? (bare ? " httpn" : " http") : ""));
 }
 
-static void OpDelete(const std::string& type, const std::string& name, bool cascade, bool wantHttp = false)
+/* thrType/thrName: the object whose first deactivation during the call is answered by an exception (fault injection) */
+static void OpDelete(const std::string& type, const std::string& name, bool cascade, bool wantHttp = false,
+	const std::string& thrType = std::string(), const std::string& thrName = std::string())
 {
 	bool viaHttp = wantHttp && HttpName(name);
-	Submit("delete " + type + " " + NameTok(name) + " " + (cascade ? "1" : "0") + (viaHttp ? " http" : ""));
+	Submit("delete " + type + " " + NameTok(name) + " " + (cascade ? "1" : "0") + (viaHttp ? " http" : "") +
+		(thrType.empty() ? "" : " thr=" + thrType + ":" + NameTok(thrName)));
 }
 
 static void OpCase(long long n)
@@ -2358,6 +2401,22 @@ static void GenCase(Rng& r, long long n)
 		}
 		bool cascade = r.below(100) < 45;
 		bool wantHttp = r.below(100) < 13;
+		if (g.live.count(GKey(type, name)) && r.below(100) < 14) {
+			/* fault injection: the deactivation of the object itself (mostly) or of one of its believed dependents is
+			 * answered by an exception; then, mostly, the same delete is tried again */
+			GKey f(type, name);
+			std::vector<GKey> d = g.Dependents(f);
+			if (cascade && !d.empty() && r.below(100) < 35)
+				f = d[r.below(d.size())];
+			OpDelete(type, name, cascade, wantHttp, f.first, f.second);
+			if (r.below(100) < 75) {
+				bool c2 = r.below(100) < 30 ? !cascade : cascade;
+				OpDelete(type, name, c2, r.below(100) < 13);
+				g.BelieveDelete(GKey(type, name), c2);
+				i++;
+			}
+			continue;
+		}
 		OpDelete(type, name, cascade, wantHttp);
 		g.BelieveDelete(GKey(type, name), cascade);
 	}
@@ -2499,6 +2558,34 @@ static long long Prelude()
 	OpCase(++n);
 	OpCreate("Host", "pnb2", false, new Array({ "tpl" }), J("{}"), true, true);
 
+	/* a deletion aborted half-way by an exception from a deactivation handler, then tried again */
+	OpCase(++n);
+	OpCreate("UserGroup", "fug", false, none, J(R"({"display_name":"F"})"));
+	OpCreate("User", "fu", false, none, J(R"({"groups":["fug"]})"));
+	OpDelete("User", "fu", false, false, "User", "fu");
+	OpDelete("User", "fu", false);
+	OpDelete("UserGroup", "fug", true);
+	OpCase(++n);
+	OpCreate("UserGroup", "fug", false, none, J(R"({"display_name":"F"})"));
+	OpCreate("User", "fu", false, none, J(R"({"groups":["fug"]})"));
+	OpDelete("User", "fu", false, true, "User", "fu");
+	OpDelete("UserGroup", "fug", true);
+	OpDelete("User", "fu", true, true);
+	OpCase(++n);
+	OpCreate("Host", "fh", false, none, J(R"({"check_command":"scc"})"));
+	OpCreate("Service", "fh!fs", false, none, J(R"({"check_command":"scc"})"));
+	OpCreate("Comment", "fh!fs!fc", false, none, J(R"({"author":"me","text":"t"})"));
+	/* the fault names an object the call never reaches / the target of a cascade (its dependents go first) */
+	OpDelete("Comment", "fh!fs!fc", false, false, "Host", "fh");
+	OpDelete("Host", "fh", true, false, "Host", "fh");
+	OpDelete("Host", "fh", true);
+	/* F-C17j: the deletion of a dependent is aborted in the middle of a cascade */
+	OpCase(++n);
+	OpCreate("Host", "fj", false, none, J(R"({"check_command":"scc"})"));
+	OpCreate("Service", "fj!fs", false, none, J(R"({"check_command":"scc"})"));
+	OpDelete("Host", "fj", true, false, "Service", "fj!fs");
+	OpDelete("Service", "fj!fs", false);
+
 	return n;
 }
 
@@ -2592,8 +2679,8 @@ int main(int argc, char **argv)
 
 	fprintf(stderr, "STATS http_ops=%ld auto_deletes=%ld apply_host_ok=%ld apply_host_failed=%ld x_lines=%ld\n", l_PHttp, l_PAuto, l_PApplyOk,
 		l_PApplyFail, l_PX);
-	fprintf(stderr, "STATS cases=%ld creates=%ld deletes=%ld del_ok=%ld del_refused=%ld del_missing=%ld del_other=%ld\n",
-		l_PCases, l_PCreate, l_PDelete, l_PDel[0], l_PDel[1], l_PDel[2], l_PDel[3]);
+	fprintf(stderr, "STATS cases=%ld creates=%ld deletes=%ld del_ok=%ld del_refused=%ld del_missing=%ld del_other=%ld del_threw=%ld\n",
+		l_PCases, l_PCreate, l_PDelete, l_PDel[0], l_PDel[1], l_PDel[2], l_PDel[3], l_PThrew);
 	for (auto& kv : l_PStat)
 		fprintf(stderr, "STATS type=%s created=%ld refused=%ld exception=%ld cfg_refused=%ld ok_but_absent=%ld\n", kv.first.c_str(),
 			kv.second[0], kv.second[1], kv.second[2], kv.second[3], kv.second[4]);
